@@ -36,14 +36,14 @@ func ruleLayoutFloat(c *Ctx) {
 	got := env.canonStmts(fd.Body.List[start : end+1])
 	// binary64: 1 sign bit, 11 exponent bits (bias 1023), 52 fraction bits, hidden bit 2^52, subnormal exponent -1022
 	const frac, ebits, bias = 52, 11, 1023
-	want := fmt.Sprintf("L0:=call(math.Float64bits;P0);L1:=(L0&K(%d));L2:=conv(int16;((L0>>K(%d))&K(%d)));L3:=((L0&K(%d))!=K(0));if((L2==K(0))){L2=K(%d)}else{L1|=K(%d);L2-=K(%d)};L4:=conv(int;(K(%d)-L2))",
+	want := fmt.Sprintf("L0:=call(math.Float64bits;P0);L1:=(K(%d)&L0);L2:=conv(int16;((L0>>K(%d))&K(%d)));L3:=((K(%d)&L0)!=K(0));if((K(0)==L2)){L2=K(%d)}else{L1|=K(%d);L2-=K(%d)};L4:=conv(int;(K(%d)-L2))",
 		uint64(1)<<frac-1, frac, 1<<ebits-1, uint64(1)<<63, 1-bias, uint64(1)<<frac, bias, frac)
 	c.check(got == want, "float.fields", fd.Body.List[start], "mantissa 2^52-1, exponent >>52 & 0x7ff, sign bit 63, hidden bit 2^52, bias 1023, subnormal exponent -1022, shift = 52 - exp",
 		"FromFloat64 does not unpack the float64 as IEEE 754 binary64 requires (mantissa mask 2^52-1, 11-bit exponent with bias 1023, subnormals use exponent -1022 without the hidden bit): "+got, "C09")
 	// the exact-integer shortcut: shift == 0 -> compose(neg, {mant,0}, bias)
 	if end+1 < len(fd.Body.List) {
 		g := env.canonStmt(fd.Body.List[end+1])
-		w := fmt.Sprintf("if((L4==K(0))){return call(compose;L3,lit(uint128{L1,K(0)}),K(%d))}", specBias)
+		w := fmt.Sprintf("if((K(0)==L4)){return call(compose;L3,lit(uint128{L1,K(0)}),K(%d))}", specBias)
 		c.check(g == w, "float.exact", fd.Body.List[end+1], "shift 0: the mantissa is the value", "FromFloat64: with a zero shift the mantissa itself is the integer value: "+g, "C09")
 	}
 }
@@ -183,124 +183,41 @@ var lowWordReviewed = map[string]string{
 	"Exp2:sig":  "after the integer/fraction split the integer part is below 10^6 (magnitude exit dExp <= 5 - log10)",
 }
 
-// highWordZero looks for a dominating fact V[1] == 0.
+// highWordZero looks for a dominating fact V[1] == 0 (also V[1]|W[1] == 0).
 func (p *Prog) highWordZero(fd *ast.FuncDecl, stack []ast.Node, site ast.Node, vkey string) (bool, string) {
-	isHigh := func(e ast.Expr) bool {
-		e = ast.Unparen(e)
-		jx, ok := e.(*ast.IndexExpr)
-		if !ok || p.exprKey(jx.X) != vkey {
-			return false
+	full := append(append([]ast.Node{}, stack...), site)
+	facts := p.factsAt(full, func(s ast.Stmt) bool { return p.assignsTo(s, vkey) })
+	for _, f := range facts {
+		x, op, k, ok := p.normCmp(f.cond)
+		if !ok || k.Sign() != 0 {
+			continue
 		}
-		j, ok := p.constInt64(jx.Index)
-		return ok && j == 1
-	}
-	// does `cond == val` imply V[1] == 0 ?
-	var implies func(cond ast.Expr, val bool) bool
-	implies = func(cond ast.Expr, val bool) bool {
-		cond = ast.Unparen(cond)
-		be, ok := cond.(*ast.BinaryExpr)
-		if !ok {
-			if ue, ok := cond.(*ast.UnaryExpr); ok && ue.Op == token.NOT {
-				return implies(ue.X, !val)
-			}
-			return false
+		if !f.val {
+			op = negOp(op)
 		}
-		switch be.Op {
-		case token.LAND:
-			if val {
-				return implies(be.X, true) || implies(be.Y, true)
-			}
-			return false
-		case token.LOR:
-			if !val {
-				return implies(be.X, false) || implies(be.Y, false)
-			}
-			return false
-		case token.EQL, token.NEQ:
-			z, okz := p.constInt64(be.Y)
-			if !okz || z != 0 {
-				return false
-			}
-			// X is V[1] or an OR containing V[1]
-			has := false
-			var walk func(e ast.Expr)
-			walk = func(e ast.Expr) {
-				e = ast.Unparen(e)
-				if isHigh(e) {
+		if op != token.EQL {
+			continue
+		}
+		has := false
+		var walk func(e ast.Expr)
+		walk = func(e ast.Expr) {
+			e = ast.Unparen(e)
+			if jx, ok := e.(*ast.IndexExpr); ok && p.exprKey(jx.X) == vkey {
+				if j, ok := p.constInt64(jx.Index); ok && j == 1 {
 					has = true
 				}
-				if b2, ok := e.(*ast.BinaryExpr); ok && b2.Op == token.OR {
-					walk(b2.X)
-					walk(b2.Y)
-				}
 			}
-			walk(be.X)
-			if !has {
-				return false
-			}
-			return (be.Op == token.EQL) == val
-		}
-		return false
-	}
-	// enclosing conditions
-	for i := len(stack) - 1; i >= 0; i-- {
-		switch s := stack[i].(type) {
-		case *ast.IfStmt:
-			if i+1 < len(stack) && stack[i+1] == ast.Node(s.Body) && implies(s.Cond, true) {
-				return true, ""
-			}
-			if s.Else != nil && i+1 < len(stack) && stack[i+1] == s.Else && implies(s.Cond, false) {
-				return true, ""
-			}
-			// inside the condition itself, to the right of `V[1] != 0 ||` or `V[1] == 0 &&`
-			if containsNode(s.Cond, site) {
-				if be, ok := ast.Unparen(s.Cond).(*ast.BinaryExpr); ok {
-					if be.Op == token.LOR && containsNode(be.Y, site) && implies(be.X, false) {
-						return true, ""
-					}
-					if be.Op == token.LAND && containsNode(be.Y, site) && implies(be.X, true) {
-						return true, ""
-					}
-				}
-			}
-		case *ast.ForStmt:
-			if s.Cond != nil && i+1 < len(stack) && stack[i+1] == ast.Node(s.Body) && implies(s.Cond, true) {
-				return true, ""
+			if b2, ok := e.(*ast.BinaryExpr); ok && b2.Op == token.OR {
+				walk(b2.X)
+				walk(b2.Y)
 			}
 		}
-	}
-	// earlier early returns
-	chain := blockChain(append(append([]ast.Node{}, stack...), site))
-	known := false
-	for _, bp := range chain {
-		for j := 0; j < bp.idx; j++ {
-			s := bp.list[j]
-			if ifs, ok := s.(*ast.IfStmt); ok && ifs.Else == nil && blockLeaves(ifs.Body.List) && implies(ifs.Cond, false) {
-				known = true
-				continue
-			}
-			if p.assignsTo(s, vkey) {
-				known = false
-			}
-			// a loop without break ends with its condition false
-			if f, ok := s.(*ast.ForStmt); ok && f.Cond != nil {
-				brk := false
-				ast.Inspect(f.Body, func(m ast.Node) bool {
-					if b, ok := m.(*ast.BranchStmt); ok && b.Tok == token.BREAK {
-						brk = true
-					}
-					return true
-				})
-				if !brk && implies(f.Cond, false) {
-					known = true
-				}
-			}
+		walk(x)
+		if has {
+			return true, ""
 		}
 	}
-	if known {
-		return true, ""
-	}
-	return false, "no enclosing condition or earlier early return tests the high word"
+	return false, "no enclosing condition or earlier early exit tests the high word"
 }
 
 // E2.series: series lengths are sufficient (numeric side conditions computed
